@@ -14,24 +14,28 @@ package compiler
 // encoding helpers (C05): operands are little-endian 16-bit values; a patched forward jump lands exactly
 // at the end of the code emitted so far, a backward jump exactly at `to`.
 //@ func compiler.encode returns r
+//@   assigns nothing
 //@   property C05
 //@   ensures[len] len(r) == 2
 //@   ensures[fresh] fresh(r)
 //@   ensures[le] int(r[0]) + 256*int(r[1]) == int(i)
 
 //@ func compiler.compiler.patchJump
+//@   assigns obj(c.bytecode)
 //@   property C01 C05
 //@   requires c != nil && placeholder >= 1 && placeholder + 2 <= len(c.bytecode)
 //@   ensures[lands-here] (placeholder - 1) + 3 + int(c.bytecode[placeholder]) + 256*int(c.bytecode[placeholder+1]) == len(c.bytecode)
 //@   ensures[len] len(c.bytecode) == old(len(c.bytecode))
 
 //@ func compiler.compiler.calcBackwardJump returns r
+//@   assigns nothing
 //@   property C01 C05
 //@   requires c != nil && to >= 0 && to <= len(c.bytecode)
 //@   ensures[lands-at-to] len(r) == 2 && len(c.bytecode) + 3 - (int(r[0]) + 256*int(r[1])) == to
 
 // constants are laid out in emission order; an index handed out earlier never changes (C05, C09)
 //@ func compiler.compiler.makeConstant returns r
+//@   assigns *
 //@   property C05 C09
 //@   mode panics
 //@   requires c != nil && i != nil
@@ -46,6 +50,7 @@ package compiler
 
 // emit appends the opcode and its operand bytes and returns the offset of the first operand byte (C05, C13)
 //@ func compiler.compiler.emit returns current
+//@   assigns *
 //@   property C05 C13
 //@   mode panics
 //@   requires c != nil && c.locations != nil && obj(c.bytecode) != obj(c) && obj(c.nodes) != obj(c) && obj(c.nodes) != obj(c.bytecode)
